@@ -67,7 +67,7 @@ def run_stream(ctx, r, idx):
 				if not cmd(i, "RFMUTE %d" % v):
 					return
 		elif x < 0.25:
-			if not cmd(r.randrange(n), "SETFORMAT %d" % r.choice((0, 1))):
+			if not cmd(r.randrange(n), "SETFORMAT %d" % r.choice((0, 1, 0, 1, 2, 5, 15))):
 				return
 		# one burst
 		s = r.randrange(n)
